@@ -54,7 +54,8 @@ PROPERTIES = {
                 "and container type, every unconditional occurrence must be retrieved on every event, and every miniAOD token must "
                 "have been created once in the constructor by consumes<T>(InputTag(bank)) for an occurrence; (b) for sampled events "
                 "every retrieval index is failed in turn: the delivery must end in failure before any row is filled, without a "
-                "signal, and a fresh instance must then reproduce outcome(k). Non-trivial = a job with at least one enumerated "
+                "signal (rows already written for earlier objects of a several-rows-per-event query must be a prefix of "
+                "the event's rows), and a fresh instance must then reproduce outcome(k). Non-trivial = a job with at least one enumerated "
                 "failing retrieval; distinct = (shape, backend, retrieval position).",
         "real_vs_stub": REAL_VS_STUB,
         "assumptions": [
@@ -411,9 +412,13 @@ def _c06(case, exe, work, res):
                               "detail": f"event {k}, retrieval #{idx} ({what}) failed by the store but the event was processed as if "
                                         f"nothing happened: rows {f0['rows']}"})
                 return
-            if f0["rows"]:
+            canon_rows = outcome[k][1] if outcome[k][0] == "rows" else (outcome[k][2] if len(outcome[k]) > 2 else [])
+            if f0["rows"] and f0["rows"] != canon_rows[:len(f0["rows"])]:
+                # a query that writes several rows per event may have written the rows of earlier objects before a later
+                # object's collection is fetched; what is there must be a prefix of the event's rows, never anything else
                 viols.append({"property": "C06", "invariant": "failed-retrieval-not-contained", "event": k, "index": idx,
-                              "detail": f"event {k}, retrieval #{idx} ({what}) failed but rows were already filled: {f0['rows']}"})
+                              "detail": f"event {k}, retrieval #{idx} ({what}) failed but the rows written ({f0['rows']}) are not a "
+                                        f"prefix of the rows the event writes when the store works ({canon_rows})"})
                 return
             if len(fd) < 2 or outcome_of(fd[1]) != outcome[k]:
                 viols.append({"property": "C06", "invariant": "failed-retrieval-not-contained", "event": k, "index": idx,
